@@ -175,11 +175,21 @@ def containerEnv (v : Ver) (c : VContainer) (s : String) : Option Int :=
   else if s == "_signature_block_offset" then some (sigBlockOffset v c.images.length : Nat)
   else none
 
+/-- `verify_authenticity` without the cryptographic part: a container whose SRK set is 'none' must not carry an SRK table
+    or a signature (the SRK set is part of the signed flags; commit 457be4d) -/
+def authenticityRecord (c : VContainer) : List String :=
+  if getFI c.flags AhabConsts.cFlagsSrkSetOffset AhabConsts.cFlagsSrkSetSize == 0 then
+    match c.sb with
+    | some sb => if sb.srk.present || sb.sig.present then ["Signature block"] else []
+    | none => []
+  else []
+
 def verifyContainer (ch : Chip) (v : Ver) (c : VContainer) : List String :=
   verifyHeader [AhabConsts.containerTag] [v.containerVersion] c.hdr
     ++ failed AhabConsts.recsContainer (containerEnv v c)
     ++ (match c.sb with | some sb => verifySigBlock v sb | none => [])
     ++ (if c.images.isEmpty then ["Image array"] else c.images.flatMap (verifyIae ch v))
+    ++ authenticityRecord c
 
 /-! ### whole image -/
 
